@@ -26,10 +26,11 @@ def build(r, rng):
         base = (12.0 * k, 4.0, 0.0)
         if x >= 10:
             lvl, w = x // 10, x % 10
-            est = obj3d(base, yaw=(W - w) * math.pi / W, label="car", score=conf, vid=k + 1)
+            phi = math.atan2(math.sin(math.pi / 4 + 2.39996 * k), math.cos(math.pi / 4 + 2.39996 * k))   # base headings on both sides of the +-pi cut
+            est = obj3d(base, yaw=phi + (1.0 if k % 2 == 0 else -1.0) * (W - w) * math.pi / W, label="car", score=conf, vid=k + 1)
             # level l beats rungs l..3 : l = 2 -> distance 0.5 (< 1.0), l = 3 -> 1.5 (< 2.0), l = 4 -> 2.5 (beats none);
             # level 1 would have to beat threshold 0.0, which no distance can (such states are skipped)
-            gt = obj3d((base[0] + lvl - 1.5, base[1], 0.0), yaw=0.0, label="car", score=1.0, vid=k + 1)
+            gt = obj3d((base[0] + lvl - 1.5, base[1], 0.0), yaw=phi, label="car", score=1.0, vid=k + 1)
         elif x == -1:
             est, gt = obj3d(base, label="car", score=conf, vid=k + 1), None
         else:
